@@ -20,7 +20,11 @@
       at a root that is neither committed nor waiting returns nothing.
 
     Content [None] = unknown (the update was computed from a parent the
-    specification knows nothing about, e.g. a foreign hash): no obligation. *)
+    specification knows nothing about, e.g. a foreign hash): no obligation.
+
+    No request whatsoever may take the store down: the reply [SCrash] (the
+    process that serves the store died while the operation was in flight) is
+    rejected for every operation. *)
 From Coq Require Import List ZArith NArith Bool.
 From C33 Require Import C01.Keys C01.Spec.
 Import ListNotations.
@@ -80,7 +84,8 @@ Inductive sout :=
 | SRoot (t : tok)
 | SVals (vs : list (option bytes))
 | SNotFound
-| SFail.                           (* any other error, or a panic *)
+| SFail                            (* any other error, or a recovered panic *)
+| SCrash.                          (* no reply: the process of the store died *)
 
 (** A value of length 0 is not distinguishable from "absent" at the store API
     (Store.Get leaves the slot nil unless the key exists, and the reply travels
@@ -112,6 +117,7 @@ Definition all_none (vs : list (option bytes)) : bool :=
 (** one step: the new specification state and whether the reply is allowed *)
 Definition sstep (strict : bool) (s : sst) (o : sop) (r : sout) : sst * bool :=
   match o, r with
+  | _, SCrash => (s, false)
   | SMemSet p kvs, SRoot t =>
       let c := upd (known s p) kvs in
       let old := match a_get (waiting s) t with Some c0 => c0 | None => None end in
